@@ -14,7 +14,7 @@ func main() {
 		Rule: "generated programs dominated by function definitions (0..3 parameters, varargs, methods) and calls with fewer/equal/more arguments in every result context " +
 			"(statement, single, parenthesised, middle, last of argument list/return list/table constructor/multiple assignment), select/unpack/arg; traces compared with the reference evaluator; " +
 			"non-trivial = at least 5 emitted rows or an error outcome; distinct by Gallina term",
-		Modes:     []luaprop.Mode{{Name: "calls", Features: f, Weight: 1}},
+		Modes:     []luaprop.Mode{{Name: "calls", Features: f, Weight: 5}, {Name: "calls-bigk", Features: bigk(f), Weight: 1}},
 		NQuick:    220,
 		NThorough: 6000,
 		Corpus:    corpus,
@@ -22,7 +22,10 @@ func main() {
 	})
 }
 
+func bigk(f luagen.Features) luagen.Features { f.BigK = true; f.MaxStmts = 25; return f }
+
 var corpus = []string{
+	`local t = {5, 6}; local function f() local k, v = next(t); return k end; local a, b = f(); emit(a, b); local function g() local p, q, r = 1, 2, 3; return p, q end; local x, y, z = g(); emit(x, y, z)`,
 	`local function f(a, b, ...) emit(a, b, select('#', ...), ...) return ..., a end; emit(f()); emit(f(1)); emit(f(1,2,3,4)); emit((f(1,2,3))); emit(f(1,2,3), 9); local t = {f(1,2,3,4)}; emit(#t)`,
 	`local function g() return 1, 2, 3 end; local a, b, c, d = g(); emit(a, b, c, d); local x, y = g(), 10; emit(x, y); emit(({g(), g()})[4], #{g(), g()}); emit(#{(g())})`,
 	`local function v(...) return select('#', ...), select(2, ...) end; emit(v()); emit(v(nil, nil)); emit(v(1, nil, 3)); emit(select(-1, 1, 2, 3)); emit(unpack({1, 2, 3}, 2)); emit(unpack({1, 2, 3}, 2, 3))`,
